@@ -2,18 +2,22 @@
 \* Export configuration of SqliteModel.tla for one seed: every single edit forward (seed -> R), backward (R -> seed) and, in the
 \* thorough tier, every two-edit pair; model obligations: seeds well-formed, WF closed under the exported edits, row semantics
 \* well-defined (a rewritten column always has a default to take).
-EXTENDS SqliteModel, Json, SequencesExt
-CONSTANTS SeedName, Two, OutFile
+EXTENDS SqliteModel, Json, SequencesExt, Randomization
+CONSTANTS SeedName, Two, OutFile, Sample
 Seed == CASE SeedName = "Seed1" -> Seed1 [] SeedName = "Seed2" -> Seed2 [] SeedName = "Seed3" -> Seed3 [] SeedName = "Seed5" -> Seed5 [] OTHER -> Seed4
 S1 == Succ(Seed)
 Fwd == { <<Seed, R>> : R \in S1 }
 Bwd == { <<R, Seed>> : R \in { X \in S1 : Seed \in Succ(X) } }   \* only edits that are themselves admissible (populated tables)
 Two2 == IF Two THEN UNION { { <<Seed, R>> : R \in Succ(M) \ {Seed} } : M \in S1 } ELSE {}
 Crs == { <<Seed, R>> : R \in Cross(Seed) }
-All == Fwd \cup Bwd \cup Two2 \cup Crs
+\* two edits of the same table (a column added next to any other change of that table); Sample > 0 takes a random subset of that size
+\* (TLC's RandomSubset, seeded by -seed), Sample = 0 all of them
+Pick(S) == IF Sample = 0 \/ Cardinality(S) <= Sample THEN S ELSE RandomSubset(Sample, S)
+Two2s == { <<Seed, R>> : R \in Pick(SameTable(Seed)) }
+All == Fwd \cup Bwd \cup Two2 \cup Crs \cup Two2s
 ASSUME WF(Seed)
 ASSUME \A p \in All : WF(p[1]) /\ WF(p[2])
 ASSUME \A p \in All : \A t \in Present(p[1]) \cap Present(p[2]) : \A c \in Rewritten(p[1], p[2], t) : p[2][t].cols[c].dflt # "none"
-ASSUME PrintT(<<"STATS", ToJson([succ |-> Cardinality(S1), cross |-> Cardinality(Crs), all |-> Cardinality(All)])>>)
+ASSUME PrintT(<<"STATS", ToJson([succ |-> Cardinality(S1), cross |-> Cardinality(Crs), two |-> Cardinality(Two2s), all |-> Cardinality(All)])>>)
 ASSUME ndJsonSerialize(OutFile, SetToSeq({ [from |-> p[1], to |-> p[2]] : p \in All }))
 ====
